@@ -149,9 +149,17 @@ def rawExtZ (bits w h : Int) : Bytes :=
 
 def isRGB (c : CS) : Bool := c == .rgb || c == .inlRgb
 def isGray (c : CS) : Bool := c == .gray || c == .inlGray
+/-- `_plausible_dimensions(width, height, bits)` for integer values (bounds regenerated). -/
+def plausible (w h bits : Nat) : Bool :=
+  0 < w && w < plausDimLimit && 0 < h && h < plausDimLimit && 0 < bits && bits ≤ plausBitsMax &&
+  w * h * bits < plausTotalLimit
+
 /-- `ImageWriter.export_image`: (file name, file content) for an image and a directory listing. -/
 def exportImage (im : ImgIn) (existing : List Bytes) : Except Err (Bytes × Bytes) :=
-  if im.filters.getLast? = some .dct then
+  if !plausible im.w im.h im.bits then
+    -- damaged Width / Height / BitsPerComponent: the bytes are kept as they are
+    withName existing im.name extUndecoded (.ok im.data)
+  else if im.filters.getLast? = some .dct then
     withName existing im.name extJpeg (if im.cmykMember then .error .importError else .ok im.data)
   else if im.filters.getLast? = some .jpx then
     withName existing im.name [46, 106, 112, 50] (.error .importError)
